@@ -45,7 +45,7 @@ def run(prog: Program, rep: Report, tier: str):
              "and label are mixed with the same partner")
     sh = [(n, c) for n, c in fa.calls_named("shuffle") if isinstance(c.func, ast.Attribute)
           and fa.sym.term(c.func.value, n) == ("param", fa.self_name)]
-    rep.floor("shuffle call sites in collate", len(sh), 3)
+    rep.floor("shuffle call sites in collate", len(sh), 0)
     sh_nodes = {n for n, _ in sh}
 
     def _second_target(n_):
@@ -174,6 +174,10 @@ def run(prog: Program, rep: Report, tier: str):
         own_name = _base_name(fa.expand(own, n))
         # partner provenance
         prov = _partner_of(fa, partner, n, sh)
+        if prov is None and not sh:
+            rep.unk("G6.convex-mix", fi, construct, "no self.shuffle(...) call in collate: where the partner comes from is not "
+                    "decided", line=c.lineno, clause="C10.2")
+            continue
         if prov is None:
             problems.append(f"the partner {ast.unparse(partner)} does not come from self.shuffle / the partner index")
         elif prov != own_name:
@@ -194,6 +198,67 @@ def run(prog: Program, rep: Report, tier: str):
         rep.decide(not problems, "G6.convex-mix", fi, construct, "L*own + (1-L)*partner with the reported L",
                    "; ".join(problems), line=c.lineno, clause="C10.2")
 
+    # ---- partner rows are read from the batch as it was; the partner index is used in one direction ----------------------
+    rep.rule("G8.partner-snapshot", "a partner that is gathered from the batch tensor itself (x[perm..]) is gathered before anything is "
+             "written into that tensor - otherwise a row that was already pasted / mixed is handed on as someone's partner and "
+             "carries pixels of a third sample; and the index vector used to gather partners is never used to scatter "
+             "(index_copy_ / index_put_ / scatter_ / a store x[perm] = ..), which applies the inverse permutation: image and "
+             "label would be mixed with different partners for every non-involutive shuffle")
+    def _writes_into(name):
+        out = []
+        for m_, nd_ in cfg.nodes.items():
+            st_ = nd_.ast if nd_.kind == "stmt" else None
+            if isinstance(st_, (ast.Assign, ast.AugAssign)):
+                tgs_ = st_.targets if isinstance(st_, ast.Assign) else [st_.target]
+                for t_ in tgs_:
+                    if isinstance(t_, ast.Subscript) and _base_name(t_) == name:
+                        out.append(m_)
+            for c_ in cfg.calls_at(m_):
+                f_ = c_.func
+                if isinstance(f_, ast.Attribute) and f_.attr.endswith("_") and not f_.attr.startswith("_") and \
+                        _base_name(f_.value) == name:
+                    out.append(m_)
+        return out
+    gather_idx = {}  # index variable -> gathered tensor name
+    n_g = 0
+    for n, c, own, L1, inner in mixes:
+        if not (isinstance(inner, ast.Call) and isinstance(inner.func, ast.Attribute)):
+            continue
+        pexpr = inner.func.value
+        # where is the partner value computed: at the mix itself, or where a temporary was bound
+        sites_ = [(pexpr, n)]
+        if isinstance(pexpr, ast.Name):
+            sites_ = [(cfg.def_value(d_, pexpr.id), d_) for d_ in cfg.reaching().get(n, {}).get(pexpr.id, ())
+                      if cfg.nodes[d_].kind != "entry" and cfg.def_value(d_, pexpr.id) is not None]
+        for e_, at_ in sites_:
+            for y in ast.walk(e_):
+                if isinstance(y, ast.Subscript) and isinstance(y.value, ast.Name):
+                    idx_ = y.slice.elts[0] if isinstance(y.slice, ast.Tuple) and y.slice.elts else y.slice
+                    names_ = {z.id for z in ast.walk(idx_) if isinstance(z, ast.Name)}
+                    src = y.value.id
+                    own_base = _base_name(fa.expand(own, n))
+                    if src != own_base or not names_:
+                        continue
+                    for nm_ in names_:
+                        gather_idx.setdefault(nm_, src)
+                    n_g += 1
+                    late = [w for w in _writes_into(src) if w != at_ and cfg.reachable(w, at_) and w != n]
+                    rep.decide(not late, "G8.partner-snapshot", fi, f"gather:{' '.join(ast.unparse(y).split())[:50]}",
+                               "partners are gathered before the first write into the batch tensor",
+                               f"{ast.unparse(y)[:50]} is gathered (line {fa.line(at_)}) after '{src}' was already written into (line "
+                               f"{fa.line(late[0]) if late else 0}): a row that was pasted / mixed before is used as a partner",
+                               line=fa.line(at_), clause="C10.1")
+    for n_, c_ in fa.calls():
+        f_ = c_.func
+        if isinstance(f_, ast.Attribute) and f_.attr in ("index_copy_", "index_put_", "scatter_", "index_add_", "index_copy", "scatter"):
+            used = {z.id for a_ in c_.args for z in ast.walk(a_) if isinstance(z, ast.Name)} & set(gather_idx)
+            ixs = [a_ for a_ in c_.args[1:2] if isinstance(a_, ast.Name) and a_.id in gather_idx]
+            if ixs:
+                rep.bad("G8.partner-snapshot", fi, f"scatter:{' '.join(ast.unparse(c_).split())[:60]}", f"'{ixs[0].id}' gathers the "
+                        f"partners elsewhere (x[{ixs[0].id}]) but is used here to scatter ({f_.attr}): that moves row i to position "
+                        f"{ixs[0].id}[i] - the inverse permutation - so this part of the image comes from another partner than the "
+                        f"label", line=c_.lineno, clause="C10.1")
+
     # cutmix: adjusted lambda and box come from one call and precede the paste and the label mix
     rep.rule("G8.cutmix-adjusted", "every paste x[..., a:b, c:d] = partner[..., a:b, c:d] uses identical slices on both sides, the "
              "box (a, c, b, d) unpacked from the bbox returned by self.get_random_bbox; the same call's second result is bound "
@@ -201,7 +266,7 @@ def run(prog: Program, rep: Report, tier: str):
     pastes = [(n, nd.ast) for n, nd in cfg.nodes.items() if nd.kind == "stmt" and isinstance(nd.ast, ast.Assign)
               and isinstance(nd.ast.targets[0], ast.Subscript) and isinstance(nd.ast.value, ast.Subscript)
               and _has_slices(nd.ast.targets[0])]
-    rep.floor("cutmix paste statements", len(pastes), 2)
+    rep.floor("cutmix paste statements", len(pastes), 1)
     gb = [(n, c) for n, c in fa.calls_named("get_random_bbox")]
     for n, st in pastes:
         construct = f"paste:{' '.join(ast.unparse(st).split())[:80]}"
@@ -258,7 +323,9 @@ def run(prog: Program, rep: Report, tier: str):
                     kinds.add("?")
             same_idx = ast.dump(ti) == ast.dump(si)
             via_j = isinstance(si, ast.Name) and bool(_resolve_names(fa, si, n) & sh_first) and not same_idx
-            if kinds == {"gathered"} and not same_idx:
+            if not sh:
+                pass  # no shuffle anchor: partner order of the source not decided
+            elif kinds == {"gathered"} and not same_idx:
                 problems.append(f"the source row of the paste is {ast.unparse(st.value.value)}[{ast.unparse(si)}], but "
                                 f"{ast.unparse(st.value.value)} is already ordered by partner (row {ast.unparse(ti)} is the partner "
                                 f"of sample {ast.unparse(ti)}): the box is taken from the partner's partner while the label is "
@@ -488,6 +555,9 @@ def _partner_of(fa: FA, partner: ast.AST, at: int, shuffles) -> Optional[str]:
             idx = sub0.slice.elts[0] if isinstance(sub0.slice, ast.Tuple) else sub0.slice
             if isinstance(idx, ast.Name) and (idx.id in sh_first or (_resolve_names(fa, idx, at) & sh_first)):
                 return sub0.value.id
+            if isinstance(idx, ast.Subscript) and isinstance(idx.value, ast.Name) and (
+                    idx.value.id in sh_first or (_resolve_names(fa, idx.value, at) & sh_first)):
+                return sub0.value.id  # x[perm[sel]]: the partners of a selection of rows
     return None
 
 
